@@ -36,6 +36,7 @@ type scenario struct {
 	Overlap    bool                   `json:"overlap"`
 	Script     map[string]*stepScript `json:"script"`
 	Schedule   *schedule              `json:"schedule"`
+	NoHooks    bool                   `json:"nohooks"` // do not install the event sink: the hooks then take no lock and no atomic, so they order nothing (race runs)
 	TimeoutMS  int                    `json:"timeout_ms"`
 	TraceOut   string                 `json:"trace_out"`
 	ResultOut  string                 `json:"result_out"`
@@ -151,7 +152,12 @@ func cmdRun(path string) int {
 		debug.SetMaxStack(sc.MaxStackMB << 20)
 	}
 	snk := newSink(sc.Schedule)
-	snk.install()
+	if sc.NoHooks {
+		theSink = snk
+		snk.disabled = true
+	} else {
+		snk.install()
+	}
 	book := newScriptBook(sc.Script)
 	res := &scenarioResult{MaxRun: map[string]int{}, Info: map[string]string{}}
 	logger := log.New(log.Config{Level: log.LevelError, Destination: log.DestinationStdout})
